@@ -53,6 +53,19 @@ Theorem C32_other_schemes_unchanged : forall old new p,
   has_colon_slash p = true -> scheme_of p <> "file" -> remap_path old new p = Some p.
 Proof. exact other_scheme_unchanged. Qed.
 
+(* the recursion through arrays, records, secondaryFiles and listing: a whole CWL value is restored as soon
+   as every location/path string of the File/Directory objects it contains ([fs_v]) is restored; together
+   with the path theorems above this is the round trip of values.  Any nesting depth and width. *)
+Theorem C32_value_roundtrip : forall old new v v',
+  remap_token_value old new v = Some v' ->
+  (forall s, In s (fs_v v) -> forall s', remap_path old new s = Some s' -> remap_path new old s' = Some s) ->
+  remap_token_value new old v' = Some v.
+Proof. exact token_value_roundtrip. Qed.
+(* atoms and strings that are not a location/path of a File/Directory are never touched *)
+Theorem C32_non_file_unchanged : forall rp v,
+  match v with JAtom _ | JStr _ => remap_v rp v = Some v | _ => True end.
+Proof. exact non_file_unchanged. Qed.
+
 (* the code before the fix loses names containing percent signs *)
 Theorem C32_percent_before_fix_refuted :
   remap_path_before_fix "/old" "/new" "/old/a%20b" = Some "/new/a b" /\
@@ -68,6 +81,15 @@ Example C32_roundtrip_example :
   file_loc ["old dir"; "a b"] = "file:///old%20dir/a%20b" /\ forallb good ["old dir"; "a%20b"; "100%"] = true.
 Proof. vm_compute. repeat split; reflexivity. Qed.
 
+Example C32_value_example :
+  let v := JObj (FCons "class" (JStr "Directory") (FCons "path" (JStr "/o/d %") (FCons "size" (JAtom "3")
+             (FCons "listing" (JList (VCons (JObj (FCons "class" (JStr "File")
+                (FCons "location" (JStr "file:///o/d%20%25/a%2520b") FNil))) VNil)) FNil)))) in
+  fs_v v = ["/o/d %"; "file:///o/d%20%25/a%2520b"] /\
+  exists v', remap_token_value "/o" "/n n" v = Some v' /\ remap_token_value "/n n" "/o" v' = Some v /\
+             fs_v v' = ["/n n/d %"; "file:///n%20n/d%20%25/a%2520b"].
+Proof. split; [vm_compute; reflexivity|]. eexists. repeat split; vm_compute; reflexivity. Qed.
+
 Print Assumptions C32_unquote_quote.
 Print Assumptions C32_remap_plain.
 Print Assumptions C32_remap_file.
@@ -76,3 +98,5 @@ Print Assumptions C32_roundtrip_plain_partial.
 Print Assumptions C32_colon_slash_refuted.
 Print Assumptions C32_other_schemes_unchanged.
 Print Assumptions C32_percent_before_fix_refuted.
+Print Assumptions C32_value_roundtrip.
+Print Assumptions C32_non_file_unchanged.
